@@ -288,6 +288,8 @@ func direct(c *hcase, ob *obs) []pfail {
 	specCur := specName(c, true, c.T0)
 	specUnit := unitOf(c.T0)
 	lastAny := map[string]int64{}
+	lastPut := map[string]int64{} // what the id cache must hold as long as nothing was evicted
+	everPut := map[string]bool{}  // ids that may ever have entered the cache (its capacity is 1000)
 	type placed struct {
 		tok  string
 		file string
@@ -329,6 +331,12 @@ func direct(c *hcase, ob *obs) []pfail {
 				}
 			}
 			w := ob.wrote[i]
+			if w && levelOK && methRated(o.Meth) && interval > 0 && id != "" && len(everPut) < 1000 {
+				if t, ok := lastPut[id]; ok && o.T < t+int64(interval)*1000 {
+					add("FileLogger.log:repeat-not-suppressed", "op %d: %s with id %q was written %d ms after a line with the same id (interval %d s, %d distinct ids so far: below the capacity of the id cache)",
+						i, o.Meth, id, o.T-t, interval, len(everPut))
+				}
+			}
 			if w && !levelOK {
 				add("FileLogger.log:below-level-written", "op %d: %s at level %d was written", i, o.Meth, level)
 			}
@@ -340,6 +348,10 @@ func direct(c *hcase, ob *obs) []pfail {
 				if methRated(o.Meth) {
 					if t, ok := lastAny[id]; !ok || o.T > t {
 						lastAny[id] = o.T
+					}
+					if interval > 0 && id != "" {
+						lastPut[id] = o.T
+						everPut[id] = true
 					}
 				}
 				if tok := tokenOf(msg); tok != "" {
@@ -395,6 +407,8 @@ func direct(c *hcase, ob *obs) []pfail {
 					if t, ok := lastAny[id]; !ok || o.T > t {
 						lastAny[id] = o.T
 					}
+					delete(lastPut, id) // which of the two was written is not observed
+					everPut[id] = true
 				}
 			}
 			if d == nil {
